@@ -216,7 +216,7 @@ def run(ck: Check) -> int:
     ck.trusted_extra = ["reference_format, dde_sentences and clause_dict (regular expressions) are not modelled here: the model starts from the "
                         "entry list; they are exercised by rendering the abstract copybook to text (their own properties: C12)"]
     ck.assumptions = ["exactly the entries with a PICTURE are leaves (well-formed copybook)", "level numbers have two digits"]
-    ck.prove(["Stingray.Props.C07"])
+    ck.prove(["Stingray.Props.C07", "Stingray.Tie.C07"])
     explore(ck, 150 if ck.tier == "quick" else 4000)
     return ck.finish(search=lambda c: explore(c, 800))
 
